@@ -191,6 +191,8 @@ def _patch_list():
         patch = os.path.join(d, 'patch.diff')
         if os.path.exists(meta) and os.path.exists(patch):
             m = json.load(open(meta, encoding='utf-8'))
+            if m.get('not_caught'):
+                continue      # documented miss (see meta.json / DESIGN.md)
             out.append(('seeded/' + os.path.basename(d),
                         m.get('property_checked_under', m['property']),
                         patch))
